@@ -36,7 +36,8 @@ type NodeCase struct {
 	Start      uint64
 	Size       uint64
 	Signature  hx.Hex // 16 bytes
-	GPT        bool
+	GPT        bool // partition format: GPT (2) or MBR (1)
+	SigGUID    bool // signature type: GUID (2) or 32-bit MBR signature (1); usually equal to GPT
 	Path       string
 	FileName   hx.Hex
 }
@@ -68,7 +69,11 @@ func genNode(t *rapid.T) NodeCase {
 			n.Start, n.Size = n.Start&0xffffff, n.Size&0xffffffff
 		}
 		n.GPT = rapid.Bool().Draw(t, "gpt")
-		if n.GPT {
+		n.SigGUID = n.GPT
+		if rapid.IntRange(0, 5).Draw(t, "inconsistent") == 0 {
+			n.SigGUID = !n.GPT // partition format and signature type disagree
+		}
+		if n.SigGUID {
 			n.Signature = gen.GUID().Draw(t, "partguid").Wire()
 		} else {
 			s := make([]byte, 16)
@@ -127,10 +132,12 @@ func toRef(nc NodeCase) devpath.Node {
 	case "hd":
 		n.PartNumber, n.PartStart, n.PartSize = nc.PartNumber, nc.Start, nc.Size
 		copy(n.Signature[:], nc.Signature)
+		n.MBRType, n.SigType = 1, 1
 		if nc.GPT {
-			n.MBRType, n.SigType = 2, 2
-		} else {
-			n.MBRType, n.SigType = 1, 1
+			n.MBRType = 2
+		}
+		if nc.SigGUID {
+			n.SigType = 2
 		}
 	case "file":
 		n.Path = nc.Path
@@ -151,13 +158,12 @@ func checkHDText(got string, n devpath.Node) error {
 	part, _ := strconv.ParseUint(m[1], 10, 64)
 	start, _ := strconv.ParseUint(m[4], 16, 64)
 	size, _ := strconv.ParseUint(m[5], 16, 64)
-	scheme := "GPT"
-	if n.SigType == 1 {
-		scheme = "MBR"
-	}
-	if uint32(part) != n.PartNumber || !strings.EqualFold(m[2], scheme) || start != n.PartStart || size != n.PartSize {
+	// the scheme keyword: MBR/GPT; when partition format and signature type disagree either keyword is accepted
+	label := map[byte]string{1: "MBR", 2: "GPT"}
+	if uint32(part) != n.PartNumber || start != n.PartStart || size != n.PartSize || !(strings.EqualFold(m[2], label[n.SigType]) || strings.EqualFold(m[2], label[n.MBRType])) {
 		return fmt.Errorf("hard drive node renders as %q, the UEFI text form is %q", got, n.HDText())
 	}
+	// the signature is read according to the signature type field
 	if n.SigType == 2 {
 		if !strings.EqualFold(m[3], guid.FromWire(n.Signature[:]).Text()) {
 			return fmt.Errorf("hard drive node renders the partition GUID as %q, the GUID stored in the node (EFI layout) is %s: full text %q, UEFI text form %q", m[3], guid.FromWire(n.Signature[:]).Text(), got, n.HDText())
